@@ -413,7 +413,14 @@ def run_ensemble_events(desc, ctx):
     ds = {"inputs": [inp], "clim": None}
     data = vutil.build_data([path])
     ts = [2.0, 5.0]
-    for b in BINS:
+    # every event is asked for twice from the same Data object (as two diagrams of one session do): the second answer
+    # must be the documented probability as well
+    reqs = [(0, b) for b in BINS] + [(1, b) for b in BINS for _ in range(rng.randint(0, 2))]
+    head = reqs[:len(BINS)]
+    tail = reqs[len(BINS):]
+    rng.shuffle(head)
+    rng.shuffle(tail)          # (an even number of repeats could hide a request that toggles shared state)
+    for rep, b in head + tail:
         ul, lc, uu, uc = attach.BIN_TABLE[b]
         ivs = verif.util.get_intervals(b, np.array(ts))
         for i, iv in enumerate(ivs):
@@ -431,9 +438,10 @@ def run_ensemble_events(desc, ctx):
             gp = sorted(float(x) for x in np.asarray(p, float).flatten() if x == x)
             go = sorted(float(x) for x in np.asarray(obsP, float).flatten() if x == x)
             ctx.count("prob_checked", len(want_p))
+            ctx.count("event_probability_requests_repeated", rep)
             ctx.case("%s|inc2|nan|ensemble-probability" % b, True, {"bin": b, "thresholds": ts, "members": M})
             if len(gp) != len(want_p) or any(abs(a - b_) > 1e-6 for a, b_ in zip(gp, sorted(want_p))):
-                ctx.violation("ensemble-event-probability|%s" % b, "bin %s %s: probabilities from the ensemble %s, fraction of PRESENT members gives %s"
+                ctx.violation("ensemble-event-probability|%s%s" % (b, "|second-request" if rep else ""), "bin %s %s: probabilities from the ensemble %s, fraction of PRESENT members gives %s"
                               % (b, (t0, t1), gp[:10], sorted(want_p)[:10]), {"bin": b})
             if go != sorted(want_o):
                 ctx.violation("ensemble-event-observed|%s" % b, "bin %s: observed event indicators differ" % b, {"bin": b})
